@@ -262,6 +262,10 @@ func main() {
 		scfg.confirm = true
 	}
 	x.solveAll(scfg)
+	vacuous := map[string]int{}
+	if os.Getenv("VERIF_NO_VACUITY") == "" && *only == "" {
+		vacuous = x.vacuousSites(scfg, x.reg.prelude())
+	}
 	tSolve := time.Since(t0).Seconds() - tLoad - tGen
 
 	// group by site
@@ -374,6 +378,28 @@ func main() {
 		}
 		oblList = append(oblList, m)
 	}
+	// an obligation that holds on every path only because no path reaches it proves nothing
+	var vacNames []string
+	for n := range vacuous {
+		vacNames = append(vacNames, n)
+	}
+	sort.Strings(vacNames)
+	for _, n := range vacNames {
+		kfHit := false
+		for i := range known.Findings {
+			if known.Findings[i].Property == *prop && known.Findings[i].Obligation == n+"/vacuous" {
+				printed = append(printed, fmt.Sprintf("KNOWN-FINDING: property=%s %s/vacuous: %s", *prop, n, known.Findings[i].What))
+				kfHit = true
+			}
+		}
+		if kfHit {
+			continue
+		}
+		violations++
+		rp := filepath.Join(outDir, sanitize(n+"/vacuous")+".txt")
+		os.WriteFile(rp, []byte(fmt.Sprintf("obligation: %s/vacuous\nall %d path queries of this obligation were discharged, but the hypotheses of every one of them are contradictory: no execution reaches the obligation, so it proves nothing (contradictory contract, or a defect of the generator)\n", n, vacuous[n])), 0o644)
+		printed = append(printed, fmt.Sprintf("VIOLATION property=%s replay=%s no-failing-input-found", *prop, rp))
+	}
 	// function-level failures (outside subset, missing) are violations: the proof does not go through
 	for _, r := range reports {
 		if r.Error != "" {
@@ -436,6 +462,7 @@ func main() {
 	extra := map[string]interface{}{
 		"load_s": round3(tLoad), "vcgen_s": round3(tGen), "solve_wall_s": round3(tSolve),
 		"contract_files": contractFiles, "known_findings_hit": knownHit, "paths": x.paths,
+		"vacuity_guard": fmt.Sprintf("every fully discharged ensures / assert-before-call obligation was re-examined without its goal: %d of them are reachable on no path", len(vacuous)),
 	}
 	writeEvidence(evPath, *prop, *tier, seed, pc, x, reports, oblList, time.Since(t0).Seconds(), violations, extra)
 	for _, l := range printed {
